@@ -245,7 +245,9 @@ Fixpoint eval (ctx : list (value * Z)) (e : expr) (s : rstate) {struct e} : resu
       eval_list args s1 (fun vs s2 =>
       match ns, v with
       | true, VNil => Done VNil s2
-      | _, _ => lift here s2 (fetch_fn fe v name) (fun id => do_call fe here false id v vs s2)
+      | _, _ =>
+          if ns && fetch_fn_zero v name then Done VNil s2     (* FetchFnNil gave the zero Value: OpMethodNilSafe pushes nil *)
+          else lift here s2 (fetch_fn fe v name) (fun id => do_call fe here false id v vs s2)
       end))
   | EFunction _ name args fast =>
       eval_list args s (fun vs s1 =>
